@@ -19,7 +19,7 @@ import (
 
 // C10 — expressions parse with XPath 1.0 precedence, associativity and token rules.
 
-const ruleC10 = "enum (exhaustive): every unparenthesised chain o0 op1 o1 ... opk ok over the 14 binary operators (or and = != < <= > >= + - * div mod |), k <= 5 (quick) / 6 (thorough), operands distinct names; plus unary-minus placements (none, -, --) on every operand for k <= 3 and path-tier and primary operands (a/b, //a, a[1], (a)[1]/b, (a)//b, (a)[1]//@b, 1.5, 'a', count(a), p:a, @q:a, a/.., following-sibling::p:a, a/text()) for k <= 2. Oracle (round-trip): the engine's parse-tree dump (verif hook) of the text equals the dump of a table-driven precedence-climbing reference parse (all operators left-associative, unary minus between multiplicative and union). rapid: any expression e from the node-set and scalar generators: dump(engine parse of Render(e)) = Dump(e); for whitespace placements w permitted by the longest-match rule, dump(w(e)) = dump(e) and value(w(e)) = value(e); for the abbreviation expansion x(e) (a -> child::a, @a -> attribute::a, . -> self::node(), .. -> parent::node(), // -> /descendant-or-self::node()/), dump(x(e)) = dump(e) and sequence(x(e)) = sequence(e). Non-trivial: a chain with >= 2 operators (two tiers or two of one tier); a whitespace variant with >= 1 separator removed or replaced; distinct by text."
+const ruleC10 = "enum (exhaustive): every unparenthesised chain o0 op1 o1 ... opk ok over the 14 binary operators (or and = != < <= > >= + - * div mod |), k <= 5 (quick) / 6 (thorough), operands distinct names; plus unary-minus placements (none, -, --) on every operand for k <= 3 and path-tier and primary operands (a/b, //a, a[1], (a)[1]/b, (a)//b, (a)[1]//@b, 1.5, 'a', count(a), p:a, @q:a, a/.., following-sibling::p:a, a/text()) for k <= 2, and the bare root '/' in every operand position where the token rules let an operator follow it, k <= 2. A chain that the engine rejects is a failure unless it holds a '|' over a string, a number or a scalar function call (grammatical, but a type error an implementation may report when it compiles). Oracle (round-trip): the engine's parse-tree dump (verif hook) of the text equals the dump of a table-driven precedence-climbing reference parse (all operators left-associative, unary minus between multiplicative and union). rapid: any expression e from the node-set and scalar generators: dump(engine parse of Render(e)) = Dump(e); for whitespace placements w permitted by the longest-match rule, dump(w(e)) = dump(e) and value(w(e)) = value(e); for the abbreviation expansion x(e) (a -> child::a, @a -> attribute::a, . -> self::node(), .. -> parent::node(), // -> /descendant-or-self::node()/), dump(x(e)) = dump(e) and sequence(x(e)) = sequence(e). Non-trivial: a chain with >= 2 operators (two tiers or two of one tier); a whitespace variant with >= 1 separator removed or replaced; distinct by text."
 
 var (
 	uC10Chains = harness.NewUnit("C10", "enum-operator-chains", ruleC10)
@@ -40,6 +40,9 @@ var binOps = []string{"or", "and", "=", "!=", "<", "<=", ">", ">=", "+", "-", "*
 func oracleC10Chain(l *harness.Live) *harness.Failure {
 	got, err := xpath.VerifParseDump(l.Expr, nil)
 	if err != nil {
+		if xast.IllTypedUnion(l.AST) {
+			return nil // grammatical, but a '|' over a string or a number: rejecting it is no grouping error
+		}
 		return harness.Failf(xast.Dump(l.AST), "error: "+err.Error(), "the engine rejects a valid operator chain")
 	}
 	if want := xast.Dump(l.AST); got != want {
@@ -254,6 +257,54 @@ func TestC10Chains(t *testing.T) {
 			}
 		}
 	}
+	// the bare root '/' as an operand, k <= 2. After '/', a name or '*' would be a step of the
+	// same path (the disambiguation rule of 3.7), so on its left only the symbol operators other
+	// than '*' can follow it; on the right every operator can precede it.
+	rootOp := func() xast.Expr { return &xast.Path{Abs: true} }
+	afterRoot := map[string]bool{"=": true, "!=": true, "<": true, "<=": true, ">": true, ">=": true, "+": true, "-": true, "|": true}
+	for k := 1; k <= 2; k++ {
+		count := 1
+		for i := 0; i < k; i++ {
+			count *= len(binOps)
+		}
+		ops := make([]string, k)
+		opnds := make([]xast.Expr, k+1)
+		for c := 0; c < count; c++ {
+			x := c
+			for i := 0; i < k; i++ {
+				ops[i] = binOps[x%len(binOps)]
+				x /= len(binOps)
+			}
+			for mask := 1; mask < 1<<(k+1); mask++ {
+				ok := true
+				for i := 0; i <= k; i++ {
+					if mask&(1<<i) != 0 {
+						opnds[i] = rootOp()
+						if i < k && !afterRoot[ops[i]] {
+							ok = false
+						}
+					} else {
+						opnds[i] = nameStep(names[i])
+					}
+				}
+				if !ok {
+					continue
+				}
+				idx++
+				if idx%shards != shard {
+					continue
+				}
+				var sb strings.Builder
+				for i := 0; i <= k; i++ {
+					if i > 0 {
+						sb.WriteString(" " + ops[i-1] + " ")
+					}
+					sb.WriteString(xast.Render(opnds[i]))
+				}
+				run(sb.String(), xast.ParseChain(opnds, ops), true, "chain:root-operand")
+			}
+		}
+	}
 	uC10Chains.SetExhaustive(total)
 	uC10Chains.Done(total)
 }
@@ -309,6 +360,9 @@ func oracleC10Round(l *harness.Live) (c10Info, *harness.Failure) {
 	canon := xast.Render(l.AST)
 	d0, err := xpath.VerifParseDump(canon, nil)
 	if err != nil {
+		if xast.IllTypedUnion(l.AST) {
+			return info, nil
+		}
 		return info, harness.Failf(want, "error: "+err.Error(), "the engine rejects a valid expression")
 	}
 	if d0 != want {
